@@ -41,6 +41,8 @@ fn spaces(tier: Tier) -> Vec<Space> {
             Space { alpha: "SHARE", depth: 3 },
             Space { alpha: "SAME", depth: 2 },
             Space { alpha: "SAME", depth: 3 },
+            Space { alpha: "SELFX", depth: 2 },
+            Space { alpha: "SELFX", depth: 3 },
             Space { alpha: "CORE", depth: 3 },
             Space { alpha: "A1", depth: 2 },
             Space { alpha: "MICRO", depth: 4 },
@@ -84,7 +86,7 @@ fn xalpha(name: &str) -> Vec<XOp> {
 fn rw_spaces(tier: Tier) -> Vec<(&'static str, u32)> {
     match tier {
         Tier::Quick => vec![("MICRO", 2), ("SHARE", 2), ("MICRO", 3)],
-        Tier::Thorough => vec![("MICRO", 2), ("SHARE", 2), ("CORE", 2), ("MICRO", 3), ("SHARE", 3), ("SAME", 2), ("SAME", 3), ("MICRO", 4)],
+        Tier::Thorough => vec![("MICRO", 2), ("SHARE", 2), ("CORE", 2), ("MICRO", 3), ("SHARE", 3), ("SAME", 2), ("SAME", 3), ("SELFX", 2), ("SELFX", 3), ("MICRO", 4)],
     }
 }
 
